@@ -5,7 +5,7 @@
 From Coq Require Import List ZArith QArith Bool.
 From PV Require Import lib.Sx lib.Str lib.Result model.SccTime model.SccStash model.SccPopon spec.SpecSccTime.
 From PV Require Import model.SccDecoder spec.Spec608 spec.SpecScc05.
-From PV Require Import proofs.SccTimeFacts proofs.SccStashFacts proofs.SccPoponFacts proofs.SccPoponStage1 proofs.SccPoponTimesFacts proofs.SccPoponStage4 proofs.SccPoponStage3 proofs.SccPoponStage6 proofs.SccPoponStage5 proofs.SccPoponStage7.
+From PV Require Import proofs.SccTimeFacts proofs.SccStashFacts proofs.SccPoponFacts proofs.SccPoponStage1 proofs.SccPoponTimesFacts proofs.SccPoponStage4 proofs.SccPoponStage3 proofs.SccPoponStage6 proofs.SccPoponStage5 proofs.SccPoponStage7 proofs.SccPoponStage8 proofs.SccPoponStage9.
 Import ListNotations.
 
 (* the string surgery of get_time (`_time[:-2] + str(int(_time[-2:]) + frames)`), the regex prefix match, the split
@@ -127,6 +127,21 @@ Theorem C06_popon_stage7_spans_partial : forall d off segs evs,
   = rmap (fun spans => flat_map bspans (combine (ploads_of segs) spans)) (expected_with join_threshold evs).
 Proof. exact popon_stage7_spans_mult. Qed.
 Print Assumptions C06_popon_stage7_spans_partial.
+
+(* popon_times over the FULL item domain (all five item kinds incl. mid-row codes, every preamble style, any number of
+   rows per load, any number of loads, one load per line, Erase-Displayed-Memory lines anywhere; domain lc_ok8, see C05):
+   the captions of the i-th load all carry the i-th span of the statement computed from the EOC / EDM instants *)
+Theorem C06_popon_times : forall d off segs evs,
+  forallb pseg_ok8 segs = true -> res_map (pseg_event d off) segs = Ok evs -> positive evs ->
+  spans_of (read off (map (pseg_line d) segs))
+  = rmap (fun spans => flat_map bspans (combine (ploads_of segs) spans)) (expected_with join_threshold evs).
+Proof. exact popon_times. Qed.
+Print Assumptions C06_popon_times.
+Theorem C06_popon_times_screens : forall d off segs evs,
+  forallb pseg_ok8 segs = true -> res_map (pseg_event d off) segs = Ok evs -> positive evs ->
+  rmap screens (spans_of (read off (map (pseg_line d) segs))) = rmap screens (expected_with join_threshold evs).
+Proof. exact popon_times_screens. Qed.
+Print Assumptions C06_popon_times_screens.
 
 (* known defect #20 (offset beyond the timecodes): instants floored to 0 collide with the end == 0 sentinel *)
 Theorem C06_end_zero_sentinel_refuted :
